@@ -90,11 +90,11 @@ Require Import FL.Flw.NumCleanupNames FL.Flw.NumCleanupStep FL.Flw.NumCleanupRun
    files by number, archives decompressed, an archive NEXT TO its original is ignored - it is either an unfinished gzip stream or holds
    the same content -, an unfinished archive never stands alone), is a TAIL of the acknowledged records that contains everything a
    completed cleanup would have kept (lo <= length closed - (n + m)); nothing is there twice.
-   Side conditions as in C07: the suffix does not end with .gz, fewer than 100000 operations. *)
+   Side condition as in C07: the suffix does not end with .gz (no bound on the number of operations any more: the listing that the
+   cleanup works on is ordered by the NUMBER of the infix). *)
 Theorem C11_numbers_cleanup_kill_keeps_acked c crit k n m t0 off ops1 kp ops2 :
   numkcfg c crit k -> klim k = Some (n, m) -> c_cap c = None -> sfx_ok (c_spec c) ->
   Forall basic_op ops1 -> Forall basic_op ops2 ->
-  (N.of_nat (S (length ops1 + length ops2)) <= 100000)%N ->
   let x1 := fst (run (sys0 t0 off) (OStart c :: ops1 ++ [OSetKill kp])) in
   let xe := fst (run (sys0 t0 off) (OStart c :: ops1 ++ [OSetKill kp] ++ ops2 ++ [OCrash])) in
   exists closed ocur lo,
@@ -107,11 +107,13 @@ Proof. exact (numbers_cleanup_kill_keeps_acked c crit k n m t0 off ops1 kp ops2)
 (* ... and a new writer with the same configuration on that directory succeeds in every operation, and leaves a tail of
    acknowledged ++ own records (as long as the limits allow); with its first record it repairs the leftovers (the archive of an
    interrupted compression is removed, the original compressed anew if the limits say so): the directory then has exactly the shape
-   that a run without kill leaves (kreader_view).  pre: what is missing at the old end beyond `closed` - empty unless both limits are 0 *)
+   that a run without kill leaves (kreader_view).  pre: what is missing at the old end beyond `closed` - empty unless both limits are 0.
+   Side conditions: the suffix does not end with .gz; the number of files closed by the killed writer (at most 1 + the number of its
+   operations) fits into u32 - the new writer parses the highest index found in the directory as u32 (as in C11_numbers_kill_restart) *)
 Theorem C11_numbers_cleanup_kill_restart c crit k n m t0 off ops1 kp ops2 ops3 :
   numkcfg c crit k -> klim k = Some (n, m) -> c_cap c = None -> sfx_ok (c_spec c) ->
   Forall basic_op ops1 -> Forall basic_op ops2 -> Forall basic_op ops3 ->
-  (N.of_nat (length ops1 + length ops2 + length ops3 + 3) <= 100000)%N ->
+  (N.of_nat (S (length ops1 + length ops2)) <= u32_max)%N ->
   let x1 := fst (run (sys0 t0 off) (OStart c :: ops1 ++ [OSetKill kp])) in
   let xk := fst (run (sys0 t0 off) (OStart c :: ops1 ++ [OSetKill kp] ++ ops2 ++ [OCrash])) in
   let r2 := run xk (OStart c :: ops3 ++ [OStop]) in
